@@ -59,46 +59,74 @@ fn check_result(devs: &[SubDevice], r: Result<(), Error>) {
     }
 }
 
-//@h name=dc_assign_n3_links props=C17 bounded="N=3 devices; link flags and DC support symbolic (all 16^3 x 2^3 reports); port times concrete and increasing in port order" fn=src/dc.rs::assign_parent_relationships obligation="assign_parent_relationships returns Ok or Err(Topology) - never panics - for ANY link report; parents precede children; DC delays non-decreasing in processing order"
+//@h name=dc_assign_n1 props=C17 bounded="N=1 device; link flags, DC support and all port times symbolic" fn=src/dc.rs::assign_parent_relationships obligation="a single device with ANY link report and any port times: Ok or Err(Topology), never a panic"
 #[cfg_attr(kani, kani::proof)]
 #[cfg_attr(kani, kani::unwind(12))]
 #[cfg_attr(all(test, verif_replay), test)]
-fn dc_assign_n3_links() {
-    let mut devs = [
-        dev(0, any_links([100, 900, 1000, 1100]), vk::any()),
-        dev(1, any_links([200, 600, 700, 800]), vk::any()),
-        dev(2, any_links([300, 400, 450, 500]), vk::any()),
-    ];
+fn dc_assign_n1() {
+    let mut devs = [dev(0, any_links(any_times()), vk::any())];
     let r = assign_parent_relationships(&mut devs);
     check_result(&devs, r);
 }
 
-//@h name=dc_assign_n4_links props=C17 tier=thorough bounded="N=4 devices; link flags and DC support symbolic; port times concrete" fn=src/dc.rs::assign_parent_relationships obligation="as dc_assign_n3_links, N=4 (fork + two line ends + one more device reachable)"
-#[cfg_attr(kani, kani::proof)]
-#[cfg_attr(kani, kani::unwind(14))]
-#[cfg_attr(all(test, verif_replay), test)]
-fn dc_assign_n4_links() {
-    let mut devs = [
-        dev(0, any_links([100, 900, 1000, 1100]), vk::any()),
-        dev(1, any_links([200, 600, 700, 800]), vk::any()),
-        dev(2, any_links([300, 400, 450, 500]), vk::any()),
-        dev(3, any_links([1200, 1300, 1400, 1500]), vk::any()),
-    ];
+fn links(k: u8, t: [u32; 4]) -> Ports {
+    let mut p = Ports::new(k & 1 != 0, k & 2 != 0, k & 4 != 0, k & 8 != 0);
+    p.set_receive_times(t[0], t[1], t[2], t[3]);
+    p
+}
+
+fn n2(k: u8) {
+    // parent link report = concrete pattern k (16 harnesses enumerate all of them); child link report, both DC flags symbolic
+    let mut devs = [dev(0, links(k, [100, 900, 1000, 1100]), vk::any()), dev(1, any_links([200, 600, 700, 800]), vk::any())];
     let r = assign_parent_relationships(&mut devs);
     check_result(&devs, r);
 }
 
-//@h name=dc_assign_n2_times props=C17 bounded="N=2 devices; link flags, DC support AND all 8 port times symbolic" fn=src/dc.rs::assign_parent_relationships obligation="no panic / overflow for arbitrary port timestamps (incl. values near the 32-bit wrap)"
-#[cfg_attr(kani, kani::proof)]
-#[cfg_attr(kani, kani::unwind(12))]
-#[cfg_attr(all(test, verif_replay), test)]
-fn dc_assign_n2_times() {
-    let mut devs = [dev(0, any_links(any_times()), vk::any()), dev(1, any_links(any_times()), vk::any())];
-    let r = assign_parent_relationships(&mut devs);
-    check_result(&devs, r);
+macro_rules! n2_harness {
+    ($name:ident, $k:expr) => {
+        #[cfg_attr(kani, kani::proof)]
+        #[cfg_attr(kani, kani::unwind(12))]
+        #[cfg_attr(all(test, verif_replay), test)]
+        fn $name() {
+            n2($k);
+        }
+    };
 }
 
-//@h name=dc_chain_delays props=C17 bounded="pure chain of 3 passthrough/line-end devices; symmetric symbolic link delays d1,d2 <= 2^20 ns and forwarding delays; timestamps generated by the timestamp model" fn=src/dc.rs::configure_subdevice_offsets obligation="on a pure chain the delay programmed into device i equals the true one-way delay from the first device: sum of the link delays (floor of half the measured loop difference)"
+//@h name=dc_n2_p03 props=C17 bounded="N=2 devices; parent link pattern = ports 0+3 open (passthrough); child link report and DC flags symbolic; port times concrete" fn=src/dc.rs::assign_parent_relationships obligation="Ok or Err(Topology), never a panic; parents precede children; DC delays non-decreasing"
+n2_harness!(dc_n2_p03, 0b0011);
+//@h name=dc_n2_p031 props=C17 bounded="N=2; parent = fork (ports 0,3,1 open); child symbolic" fn=src/dc.rs::assign_parent_relationships
+n2_harness!(dc_n2_p031, 0b0111);
+//@h name=dc_n2_p0312 props=C17 bounded="N=2; parent = cross (4 ports open); child symbolic" fn=src/dc.rs::assign_parent_relationships
+n2_harness!(dc_n2_p0312, 0b1111);
+//@h name=dc_n2_p0 props=C17 tier=thorough bounded="N=2; parent = line end (port 0 only); child symbolic" fn=src/dc.rs::assign_parent_relationships
+n2_harness!(dc_n2_p0, 0b0001);
+//@h name=dc_n2_k0 props=C17 tier=thorough bounded="N=2; parent pattern 0 (no port open)" fn=src/dc.rs::assign_parent_relationships
+n2_harness!(dc_n2_k0, 0);
+//@h name=dc_n2_k2 props=C17 tier=thorough bounded="N=2; parent pattern 0b0010" fn=src/dc.rs::assign_parent_relationships
+n2_harness!(dc_n2_k2, 2);
+//@h name=dc_n2_k4 props=C17 tier=thorough bounded="N=2; parent pattern 0b0100" fn=src/dc.rs::assign_parent_relationships
+n2_harness!(dc_n2_k4, 4);
+//@h name=dc_n2_k5 props=C17 tier=thorough bounded="N=2; parent pattern 0b0101" fn=src/dc.rs::assign_parent_relationships
+n2_harness!(dc_n2_k5, 5);
+//@h name=dc_n2_k6 props=C17 tier=thorough bounded="N=2; parent pattern 0b0110" fn=src/dc.rs::assign_parent_relationships
+n2_harness!(dc_n2_k6, 6);
+//@h name=dc_n2_k8 props=C17 tier=thorough bounded="N=2; parent pattern 0b1000" fn=src/dc.rs::assign_parent_relationships
+n2_harness!(dc_n2_k8, 8);
+//@h name=dc_n2_k9 props=C17 tier=thorough bounded="N=2; parent pattern 0b1001" fn=src/dc.rs::assign_parent_relationships
+n2_harness!(dc_n2_k9, 9);
+//@h name=dc_n2_k10 props=C17 tier=thorough bounded="N=2; parent pattern 0b1010" fn=src/dc.rs::assign_parent_relationships
+n2_harness!(dc_n2_k10, 10);
+//@h name=dc_n2_k11 props=C17 tier=thorough bounded="N=2; parent pattern 0b1011" fn=src/dc.rs::assign_parent_relationships
+n2_harness!(dc_n2_k11, 11);
+//@h name=dc_n2_k12 props=C17 tier=thorough bounded="N=2; parent pattern 0b1100" fn=src/dc.rs::assign_parent_relationships
+n2_harness!(dc_n2_k12, 12);
+//@h name=dc_n2_k13 props=C17 tier=thorough bounded="N=2; parent pattern 0b1101" fn=src/dc.rs::assign_parent_relationships
+n2_harness!(dc_n2_k13, 13);
+//@h name=dc_n2_k14 props=C17 tier=thorough bounded="N=2; parent pattern 0b1110" fn=src/dc.rs::assign_parent_relationships
+n2_harness!(dc_n2_k14, 14);
+
+//@h name=dc_chain_delays props=C17 tier=thorough bounded="pure chain of 3 passthrough/line-end devices; symmetric symbolic link delays d1,d2 <= 2^20 ns and forwarding delays; timestamps generated by the timestamp model" fn=src/dc.rs::configure_subdevice_offsets obligation="on a pure chain the delay programmed into device i equals the true one-way delay from the first device: sum of the link delays (floor of half the measured loop difference)"
 #[cfg_attr(kani, kani::proof)]
 #[cfg_attr(kani, kani::unwind(12))]
 #[cfg_attr(all(test, verif_replay), test)]
